@@ -518,8 +518,15 @@ impl S3 for FileSystem {
 
         debug!(path = %object_path.display(), ?size, %md5_sum, ?checksum, "write file");
 
-        if let Some(ref metadata) = metadata {
-            self.save_metadata(&bucket, &key, metadata, None).await?;
+        match metadata {
+            Some(ref metadata) => self.save_metadata(&bucket, &key, metadata, None).await?,
+            None => {
+                // an overwrite without metadata must not keep the metadata of the previous object
+                let metadata_path = self.get_metadata_path(&bucket, &key, None)?;
+                if metadata_path.exists() {
+                    try_!(fs::remove_file(&metadata_path).await);
+                }
+            }
         }
 
         let mut info: InternalInfo = default();
